@@ -31,6 +31,7 @@ type Node struct {
 	Env      []string // extra env (VERIF_CRASH=..., VERIF_SQLITE_CLOCK_OFFSET_S=...)
 	ClockOff int64    // seconds; non-zero => LD_PRELOAD shim
 	VLimitKB int64    // non-zero => run under `ulimit -v <KB>` (virtual memory cap)
+	Auth     string   // "user:pass" sent as HTTP basic auth by Do ("" = none)
 	LogPath  string
 
 	lastJoin []string
@@ -201,6 +202,10 @@ func (n *Node) Do(method, path string, body []byte, ctype string) Resp {
 	}
 	if ctype != "" {
 		req.Header.Set("Content-Type", ctype)
+	}
+	if n.Auth != "" {
+		u, p, _ := strings.Cut(n.Auth, ":")
+		req.SetBasicAuth(u, p)
 	}
 	resp, err := client.Do(req)
 	if err != nil {
